@@ -250,6 +250,44 @@ func c18SameParams(c *Ctx, srv *server, rounds int) {
 			gt((k+2)*pp-1, "same parameters, last second of a step")
 			gt((k+2)*pp, "same parameters, directly followed by the first second of the next step")
 		}
+		// the same secret and instant with exactly one other field changed (period: multiples, divisors, +-1, at an
+		// instant where the steps of all of them begin in the same second; digits; hash), each followed by the base again
+		{
+			ts := uint64(1+rng.Intn(40000))*43200 + uint64(rng.Intn(10))
+			send := func(dg2, al2 string, per uint64, note string) {
+				f := map[string]any{"secret": sec, "timestamp": ts}
+				if dg2 != "" {
+					f["digits"] = dg2
+				}
+				if al2 != "" {
+					f["algorithm"] = al2
+				}
+				if per != 0 {
+					f["period"] = per
+				}
+				judgeREST(c, srv, restCase{EP: "totp/generate", Method: "POST", F: f, KeyHex: hexs(key), Note: note})
+				r.Count("same_parameter_history_requests", 1)
+			}
+			for _, q := range []uint64{pp * 2, pp * 3, pp * 10, pp / 2, pp / 3, pp + 1, pp - 1, 30, 60, 1, 3600} {
+				if q >= 1 && q != pp {
+					send(dg, al, period, "base request of a one-field-changed history")
+					send(dg, al, q, "same fields as the previous request but the period")
+				}
+			}
+			for _, dg2 := range []string{"6", "8", "10"} {
+				if restDigits(dg2) != restDigits(dg) {
+					send(dg, al, period, "base request of a one-field-changed history")
+					send(dg2, al, period, "same fields as the previous request but the digits")
+				}
+			}
+			for _, al2 := range []string{"SHA1", "SHA256", "SHA512"} {
+				if restAlgo(al2) != restAlgo(al) {
+					send(dg, al, period, "base request of a one-field-changed history")
+					send(dg, al2, period, "same fields as the previous request but the hash")
+				}
+			}
+			send(dg, al, period, "base request of a one-field-changed history")
+		}
 		offs := stepWalkOffsets(rng, 110)
 		for _, off := range offs {
 			step := uint64(int64(k0+300) + off)
